@@ -21,7 +21,28 @@ use tokio::time::timeout as tokio_timeout;
 #[derive(Debug, Clone, PartialEq, Eq)]
 enum ReqState {
   ReadyToSend,
+  /// A `send()` has passed the state check and is in flight. Claimed under the state lock so that
+  /// concurrent senders cannot both pass the check; released by `ReqSendClaim` on error or drop.
+  Sending,
   ExpectingReply { target_endpoint_uri: String },
+}
+
+/// Rolls a claimed `Sending` state back to `ReadyToSend` unless the send completed
+/// (covers error returns and a dropped/cancelled `send()` future).
+struct ReqSendClaim<'a> {
+  state: &'a ParkingLotMutex<ReqState>,
+  completed: bool,
+}
+
+impl Drop for ReqSendClaim<'_> {
+  fn drop(&mut self) {
+    if !self.completed {
+      let mut g = self.state.lock();
+      if matches!(*g, ReqState::Sending) {
+        *g = ReqState::ReadyToSend;
+      }
+    }
+  }
 }
 
 #[derive(Debug)]
@@ -119,15 +140,34 @@ impl ISocket for ReqSocket {
       );
     }
 
-    // === LOCK SCOPE 1: Check State ===
-    {
-      let current_state_guard = self.state.lock();
-      if !matches!(*current_state_guard, ReqState::ReadyToSend) {
+    // === LOCK SCOPE 1: Check State and claim the send under the same lock ===
+    let claim_result = {
+      let mut current_state_guard = self.state.lock();
+      match *current_state_guard {
+        ReqState::ReadyToSend => {
+          *current_state_guard = ReqState::Sending;
+          Ok(ReqSendClaim {
+            state: &self.state,
+            completed: false,
+          })
+        }
+        // Another task's send is in flight (parked at an await): tell the caller after yielding,
+        // so that a caller retrying in a loop cannot starve that send on a single-threaded runtime.
+        ReqState::Sending => Err(true),
+        ReqState::ExpectingReply { .. } => Err(false),
+      }
+    };
+    let mut send_claim = match claim_result {
+      Ok(claim) => claim,
+      Err(send_in_flight) => {
+        if send_in_flight {
+          tokio::task::yield_now().await;
+        }
         return Err(ZmqError::InvalidState(
           "REQ socket must call recv() before sending again",
         ));
       }
-    }
+    };
 
     let timeout_opt: Option<Duration> = { self.core.core_state.read().options.sndtimeo };
 
@@ -169,6 +209,7 @@ impl ISocket for ReqSocket {
             target_endpoint_uri: peer.uri.clone(),
           };
         }
+        send_claim.completed = true;
         Ok(())
       }
       Err(ZmqError::ConnectionClosed) => {
@@ -189,13 +230,21 @@ impl ISocket for ReqSocket {
 
     let rcvtimeo_opt: Option<Duration> = self.core.core_state.read().options.rcvtimeo;
 
-    {
+    let send_in_flight = {
       let op_state_guard = self.state.lock();
-      if !matches!(*op_state_guard, ReqState::ExpectingReply { .. }) {
-        return Err(ZmqError::InvalidState(
-          "REQ socket must call send() before receiving",
-        ));
+      if matches!(*op_state_guard, ReqState::ExpectingReply { .. }) {
+        None
+      } else {
+        Some(matches!(*op_state_guard, ReqState::Sending))
       }
+    };
+    if let Some(in_flight) = send_in_flight {
+      if in_flight {
+        tokio::task::yield_now().await;
+      }
+      return Err(ZmqError::InvalidState(
+        "REQ socket must call send() before receiving",
+      ));
     }
 
     let notifier = self.reply_available_notifier.clone();
@@ -277,13 +326,21 @@ impl ISocket for ReqSocket {
       return Err(ZmqError::InvalidState("Socket is closing".into()));
     }
 
-    {
+    let send_in_flight = {
       let state_guard = self.state.lock();
-      if !matches!(*state_guard, ReqState::ExpectingReply { .. }) {
-        return Err(ZmqError::InvalidState(
-          "REQ socket must call send() before receiving reply",
-        ));
+      if matches!(*state_guard, ReqState::ExpectingReply { .. }) {
+        None
+      } else {
+        Some(matches!(*state_guard, ReqState::Sending))
       }
+    };
+    if let Some(in_flight) = send_in_flight {
+      if in_flight {
+        tokio::task::yield_now().await;
+      }
+      return Err(ZmqError::InvalidState(
+        "REQ socket must call send() before receiving reply",
+      ));
     }
 
     let rcvtimeo_opt: Option<Duration> = self.core.core_state.read().options.rcvtimeo;
